@@ -157,19 +157,26 @@ def disp_bounds(w, side="left"):
     return int(grid[0].min()), int(grid[1].max())
 
 
+def _coords(w):
+    """row / col coordinates: 0-based, or starting at an offset as for a dataset read through a ROI"""
+    ro, co = w.get("coord_off") or (0, 0)
+    return np.arange(ro, ro + w["rows"]), np.arange(co, co + w["cols"])
+
+
 def build_side(w, side):
     rows, cols, bands = w["rows"], w["cols"], w["bands"]
+    crow, ccol = _coords(w)
     left_im = _image(w["left"], rows, cols, bands)
     im = left_im if side == "left" else _right_image(w["right"], left_im, rows, cols, bands)
     names = w.get("band_names") or BAND_NAMES[:bands]
     if bands == 1:
         ds = xr.Dataset(
-            {"im": (["row", "col"], im[0].copy())}, coords={"row": np.arange(rows), "col": np.arange(cols)}
+            {"im": (["row", "col"], im[0].copy())}, coords={"row": crow, "col": ccol}
         )
     else:
         ds = xr.Dataset(
             {"im": (["band_im", "row", "col"], im.copy())},
-            coords={"band_im": list(names), "row": np.arange(rows), "col": np.arange(cols)},
+            coords={"band_im": list(names), "row": crow, "col": ccol},
         )
     geo = w.get("georef")
     if geo:
@@ -212,7 +219,8 @@ def build_meta(w, side):
     """get_metadata-style dataset: coords band_im/row/col, disparity, attrs disparity_source."""
     rows, cols, bands = w["rows"], w["cols"], w["bands"]
     names = (w.get("band_names") or BAND_NAMES[:bands]) if bands > 1 else [None]
-    ds = xr.Dataset(data_vars={}, coords={"band_im": list(names), "row": np.arange(rows), "col": np.arange(cols)})
+    crow, ccol = _coords(w)
+    ds = xr.Dataset(data_vars={}, coords={"band_im": list(names), "row": crow, "col": ccol})
     full = build_side(w, side)
     if "disparity" in full:
         ds.coords["band_disp"] = ["min", "max"]
@@ -273,7 +281,8 @@ def build_mirrored(w):
     def meta(full):
         bands = w["bands"]
         names = (w.get("band_names") or BAND_NAMES[:bands]) if bands > 1 else [None]
-        ds = xr.Dataset(data_vars={}, coords={"band_im": list(names), "row": np.arange(rows), "col": np.arange(cols)})
+        crow, ccol = _coords(w)
+        ds = xr.Dataset(data_vars={}, coords={"band_im": list(names), "row": crow, "col": ccol})
         if "disparity" in full:
             ds.coords["band_disp"] = ["min", "max"]
             ds["disparity"] = full["disparity"].copy(deep=True)
